@@ -343,3 +343,62 @@ def run_deadshadow(prog, ctx=None):
                        "" if not bad else "`%s` stores into the inner `%s` (declared at line %s) that hides an outer variable of the same name; the value is never read, and the outer `%s` is read afterwards with its old value" % (
                            norm(show(sn, f))[:60], decls[inner][0], decls[inner][1], decls[inner][0]))
     return res
+
+
+OBJECT_SIZE_FIELDS = {"_used": (1 << 63) - 1, "_size": (1 << 63) - 1, "_off": (1 << 63) - 1, "_len": (1 << 63) - 1, "iov_len": (1 << 63) - 1}
+
+
+def run_sumwrap(prog, ctx=None):
+    """SUMWRAP: a limit test of the form `a + b <relop> c` on 64-bit unsigned operands decides whether lengths may be changed;
+    it is only a limit test while the sum cannot wrap.  Interval analysis, with the sizes and offsets stored in buffers,
+    slices and fragments bounded by the largest object size (PTRDIFF_MAX): the upper bounds of the two operands stay below
+    2^64 wherever a parameter the function has not bounded yet enters the sum (other sums the intervals cannot bound are listed as not decided).  `used + len > size` with a caller-supplied `len` accepts lengths near SIZE_MAX (the sum wraps to a small number)
+    where `len > size - used` refuses them."""
+    from .ival import Analysis
+    from .rules_path import funcs_of
+    res = Result("SUMWRAP")
+    files = set(ctx.get("files", [])) if ctx else None
+    for f in funcs_of(prog, files):
+        sites = []
+        for b, i, e in f.elements():
+            for n in walk(e):
+                if n.get("k") == "bin" and n.get("op") in ("<", "<=", ">", ">="):
+                    for side in ("a", "b"):
+                        x = strip(n[side], all_casts=True)
+                        if x.get("k") == "bin" and x.get("op") == "+":
+                            T = f.T(x.get("t"))
+                            if T.get("k") == "int" and not T.get("signed") and T.get("bits", 0) >= 64:
+                                sites.append((b.id, i, n, x))
+        if not sites:
+            continue
+        try:
+            an = Analysis(prog, f)
+            an.member_caps = OBJECT_SIZE_FIELDS
+            an = an.run()
+        except Exception as ex:
+            res.notes.append("%s: interval analysis failed (%s)" % (f.qn, ex))
+            continue
+        seen = set()
+        for bid, i, n, x in sites:
+            if id(n) in seen:
+                continue
+            seen.add(id(n))
+            va, vb = an.value_at(bid, i, x["a"]), an.value_at(bid, i, x["b"])
+            if va is None or vb is None:
+                continue
+            ok = va.hi + vb.hi < (1 << 64)
+            if not ok:
+                # judged where a caller-supplied, still unbounded length enters the sum; sums of two derived locals need relations
+                # between them (avail + off <= size) that intervals do not carry: listed, no verdict
+                pids = {p_.get("id") for p_ in f.params}
+                free = False
+                for side, v in ((x["a"], va), (x["b"], vb)):
+                    r = strip(side, all_casts=True)
+                    if r.get("k") == "ref" and r["d"].get("id") in pids and v.hi >= (1 << 64) - 1:
+                        free = True
+                if not free:
+                    res.notes.append("%s: `%s` not bounded by intervals (no unbounded parameter in the sum): not decided" % (f.qn, norm(show(n, f))))
+                    continue
+            res.ob("%s:%s" % (f.qn, norm(show(n, f))[:60]), ok, f, n.get("l") or f.line,
+                   "" if ok else "the sum in `%s` can wrap (operands %s and %s): a length near SIZE_MAX passes the limit test" % (norm(show(n, f)), va, vb))
+    return res
